@@ -1,7 +1,7 @@
 SPECIFICATION Spec
 CONSTANTS
  MaxUpdates = 0
- MaxReinit = 0  FixLostWorker = TRUE
+ MaxReinit = 0 BSChoices = {} FixBlockSize = TRUE  FixLostWorker = TRUE
  CountCalls = TRUE
  NW = 2  BS = 2  Total = 3  Chunk = 1  HdrSz = 1  TailSz = 2
  Timeout = FALSE  Spurious = FALSE  MayFail = FALSE
@@ -10,4 +10,4 @@ CONSTANTS
  MaxCalls = 7
 CONSTRAINT CallBound
 VIEW MCView
-INVARIANTS OrderedOutput BlocksPartitionInput BoundariesOnlyWhereRequested FlushCompletes BarrierCompletes FinishCompletes ProgressTruthful BufErrorOnlyWhenStarved DocumentedCodes QueueBound EndJoinsAll
+INVARIANTS OrderedOutput BlocksPartitionInput BoundariesOnlyWhereRequested FlushCompletes BarrierCompletes FinishCompletes ProgressTruthful BufErrorOnlyWhenStarved DocumentedCodes QueueBound EndJoinsAll InBufFits
